@@ -439,7 +439,7 @@ fn verif_native_c15_gravsoft_layout() {
 }
 
 
-//@n {"id":"C01.N.grid.roundtrip","props":["C01","C08"],"tier":"quick","bound":"generated smoothly varying Gravsoft grids (7x11 nodes): a geoid, a two-band datum shift (up to 40 arcsec) and a three-band deformation model; gridshift (geoid, datum) and deformation (dt=10, and t_epoch with mixed tuple epochs) on a 25x25 lattice strictly inside coverage x 2 heights, forward-then-inverse and inverse-then-forward; through Plain","text":"grid based shifts inside grid coverage: applying the operator forward and then inverse returns the original coordinate (1e-5 m; the geoid shift exactly up to rounding), and the same inverse-then-forward; every lattice point is counted in both directions; the forward geoid shift changes the height by the interpolated grid value and nothing else; epochs come back bit-identical"}
+//@n {"id":"C01.N.grid.roundtrip","props":["C01","C08","C10"],"tier":"quick","bound":"generated smoothly varying Gravsoft grids (7x11 nodes): a geoid, a two-band datum shift (up to 40 arcsec) and a three-band deformation model; gridshift (geoid, datum) and deformation (dt=10, and t_epoch with mixed tuple epochs) on a 25x25 lattice strictly inside coverage x 2 heights, forward-then-inverse and inverse-then-forward; through Plain","text":"grid based shifts inside grid coverage: applying the operator forward and then inverse returns the original coordinate (1e-5 m; the geoid shift exactly up to rounding), and the same inverse-then-forward; every lattice point is counted in both directions (also a tuple observed exactly at the frame epoch), a tuple outside coverage is NaN and not counted; the forward geoid shift changes the height by the interpolated grid value and nothing else; epochs come back bit-identical"}
 #[test]
 fn verif_native_c01_grid_roundtrip() {
     setup();
@@ -452,7 +452,7 @@ fn verif_native_c01_grid_roundtrip() {
     for i in 0..25 {
         for j in 0..25 {
             for h in [0.0, 1234.5] {
-                let e = [2000.0, 2015.5, 1990.25][(i + j) % 3];
+                let e = [2010.0, 2015.5, 1990.25][(i + j) % 3]; // incl. the frame epoch of the t_epoch case
                 geo.push(Coor4D::geo(54.03 + 4.0 * i as f64 / 24.0, 8.07 + 8.0 * j as f64 / 24.0, h, e));
             }
         }
@@ -525,6 +525,20 @@ fn verif_native_c01_grid_roundtrip() {
                     fails.push(format!("`{def}`: at ({lat}, {lon}) the height changes by {dz}, the grid says {nval}; horizontal {:?} -> {:?}", geo[k], w[k]));
                     break;
                 }
+            }
+        }
+    }
+    // outside coverage a tuple is NaN and not counted, also when observed exactly at the frame epoch
+    if let Ok(op) = ctx.op("deformation t_epoch=2010 grids=verif_v.deformation") {
+        for dir in [Fwd, Inv] {
+            let d = if dir == Fwd { "F" } else { "I" };
+            n += 1;
+            let mut set = [Coor4D::geo(56.0, 11.0, 0.0, 2010.0), Coor4D::geo(40.0, 0.0, 0.0, 2010.0), Coor4D::geo(40.0, 0.0, 0.0, 2020.0), Coor4D::geo(56.0, 11.0, 0.0, 2020.0)];
+            ctx.apply(cart, Fwd, &mut set).unwrap();
+            let r = ctx.apply(op, if d == "F" { Fwd } else { Inv }, &mut set).unwrap();
+            if r != 2 || !set[1][0].is_nan() || !set[2][0].is_nan() || set[0][0].is_nan() || set[3][0].is_nan() {
+                ids.push(format!("out{d}"));
+                fails.push(format!("deformation t_epoch=2010 {d} on [inside@2010, outside@2010, outside@2020, inside@2020]: count {r}, result {:?}", set));
             }
         }
     }
